@@ -6,7 +6,7 @@ from ..gen import G
 from ..common import run_apps, app, out_of, sig
 from ..core import unhx
 
-THEOREMS = ['walk_composes', 'register_composes', 'csv_log_composes', 'print_composes', 'totals_additive', 'totals_prints_acc', 'quantity_additive', 'balance_tree_composes', 'scan_lines_of_fit', 'parse_text_concat']
+THEOREMS = ['walk_composes', 'register_composes', 'csv_log_composes', 'print_composes', 'totals_additive', 'totals_prints_acc', 'quantity_additive', 'balance_tree_composes', 'scan_lines_of_fit', 'parse_text_concat', 'balance_rows_additive']
 LEVEL = 'proof'
 RULE = ('histories log_1 ++ ... ++ log_k (k in 2..5) of appended day blocks incl. repeated dates, empty days and blocks that differ only in order x random books; '
         'per-day commands: out(L1 ++ L2) = out(L1) ++ out(L2); period commands: the printed rows of the concatenation are the element-wise sums; '
